@@ -205,6 +205,10 @@ UNION_LOSSY = {"int", "bool", "float", "any", "intenum", "intflag", "num", "newt
                "flag", "litenum"}
 D2_LEAVES = ["int", "date", "mix", "str", "color"]
 EXTRA = [
+    # PEP 646: fixed items before and after the variadic part (two and three trailing items: index arithmetic of the tail)
+    ("tstar_tail2", "Tuple[int, Unpack[Tuple[str, ...]], bool, float]", ()),
+    ("tstar_tail3", "Tuple[Unpack[Tuple[int, ...]], str, datetime.date, bool]", ()),
+    ("tstar_fixed", "Tuple[int, Unpack[Tuple[str, datetime.date]], float]", ()),
     ("counter", "Counter[str]", ()),
     ("uni_is", "Union[int, str]", ()),
     ("uni_isn", "Union[int, str, None]", ()),
